@@ -26,6 +26,7 @@ import math
 import os
 import re
 from decimal import Decimal
+from .dec import highprec
 
 EPS = 2.0 ** -52
 WINDOW = 8 * EPS
@@ -52,6 +53,7 @@ def nff_symbols():
 class Nff(object):
     """One table: Ek (keV, file order), f1 (None = not available), f2."""
 
+    @highprec
     def __init__(self, symbol):
         self.symbol = symbol
         path = os.path.join(xsf_dir(), symbol.lower() + ".nff")
@@ -170,6 +172,7 @@ class Nff(object):
 F0_SYM = re.compile(r"^([A-Z][a-z]?)(?:(\d+)([+-]))?$")
 
 
+@highprec
 def read_f0():
     """{file symbol: dict(Z, a[5], b[5], c, element, charge)}; element/charge
     are None for entries that do not name an atom or ion (Cval, Siva)."""
